@@ -1,11 +1,13 @@
 package fx
 
 import (
+	"bufio"
 	"context"
 	"errors"
 	"fmt"
 	"io"
 	"net"
+	"net/http"
 	"sync"
 	"time"
 
@@ -457,4 +459,92 @@ func ReadLine(c net.Conn, timeout time.Duration) (string, error) {
 		}
 	}
 	return string(out), fmt.Errorf("line too long")
+}
+
+// HTTPTagWork answers every HTTP request on the work connection with a 200 whose
+// body is "<tag>:<proxyname>" and closes (no keep-alive): identifies the member
+// that served a request through the vhost HTTP reverse proxy.
+func HTTPTagWork(tag string) func(*ScriptedClient, net.Conn, *msg.StartWorkConn) {
+	return func(_ *ScriptedClient, wc net.Conn, s *msg.StartWorkConn) {
+		defer wc.Close()
+		br := bufio.NewReader(wc)
+		for {
+			line, err := br.ReadString('\n')
+			if err != nil {
+				return
+			}
+			if line == "\r\n" || line == "\n" {
+				break
+			}
+		}
+		body := tag + ":" + s.ProxyName
+		fmt.Fprintf(wc, "HTTP/1.1 200 OK\r\nContent-Length: %d\r\nConnection: close\r\nX-Served-By: %s\r\n\r\n%s", len(body), body, body)
+	}
+}
+
+// KindWork dispatches by proxy-name prefix: names starting with "h" speak HTTP.
+func KindWork(tag string) func(*ScriptedClient, net.Conn, *msg.StartWorkConn) {
+	h, t := HTTPTagWork(tag), TagWork(tag)
+	return func(sc *ScriptedClient, wc net.Conn, s *msg.StartWorkConn) {
+		if len(s.ProxyName) > 0 && s.ProxyName[0] == 'h' {
+			h(sc, wc, s)
+			return
+		}
+		t(sc, wc, s)
+	}
+}
+
+// HTTPGet issues one HTTP/1.1 GET on a fresh connection and returns status and body.
+func HTTPGet(addr, host, path string, hdr map[string]string, timeout time.Duration) (int, string, error) {
+	c, err := net.DialTimeout("tcp", addr, timeout)
+	if err != nil {
+		return 0, "", err
+	}
+	defer c.Close()
+	_ = c.SetDeadline(time.Now().Add(timeout))
+	req := "GET " + path + " HTTP/1.1\r\nHost: " + host + "\r\nConnection: close\r\n"
+	for k, v := range hdr {
+		req += k + ": " + v + "\r\n"
+	}
+	req += "\r\n"
+	if _, err := c.Write([]byte(req)); err != nil {
+		return 0, "", err
+	}
+	resp, err := http.ReadResponse(bufio.NewReader(c), nil)
+	if err != nil {
+		return 0, "", err
+	}
+	defer resp.Body.Close()
+	b, _ := io.ReadAll(io.LimitReader(resp.Body, 1<<20))
+	return resp.StatusCode, string(b), nil
+}
+
+// Connect issues an HTTP CONNECT to a tcpmux port and returns the status and, on 200, the connection.
+func HTTPConnect(addr, host string, hdr map[string]string, timeout time.Duration) (int, net.Conn, *bufio.Reader, error) {
+	c, err := net.DialTimeout("tcp", addr, timeout)
+	if err != nil {
+		return 0, nil, nil, err
+	}
+	_ = c.SetDeadline(time.Now().Add(timeout))
+	req := "CONNECT " + host + " HTTP/1.1\r\nHost: " + host + "\r\n"
+	for k, v := range hdr {
+		req += k + ": " + v + "\r\n"
+	}
+	req += "\r\n"
+	if _, err := c.Write([]byte(req)); err != nil {
+		c.Close()
+		return 0, nil, nil, err
+	}
+	br := bufio.NewReader(c)
+	resp, err := http.ReadResponse(br, &http.Request{Method: "CONNECT"})
+	if err != nil {
+		c.Close()
+		return 0, nil, nil, err
+	}
+	if resp.StatusCode != 200 {
+		c.Close()
+		return resp.StatusCode, nil, nil, nil
+	}
+	_ = c.SetDeadline(time.Time{})
+	return 200, c, br, nil
 }
